@@ -254,7 +254,7 @@ theorem parseFields_good {parseTy : PSt → Json → Option (PSchema × PSt)} {d
           · split at h
             · cases h
             · rename_i schema st1 hty
-              by_cases hda : defaultAccepted dflt st1.parsed schema (objGet kvs (bs "default")) = true
+              by_cases hda : defaultAccepted dflt st1.parsed schema (objGet kvs b!"default") = true
               · simp only [hda, Bool.not_true, Bool.false_eq_true, if_false] at h
                 split at h
                 · cases h
